@@ -50,6 +50,7 @@ type Join struct {
 	DstInit []world.Spec `json:"dst_init"`
 	Acts    []JAct       `json:"acts"`
 	Cycles  int          `json:"cycles"` // additional create/close cycles over the long-lived base controllers
+	HotCycles bool       `json:"hot_cycles,omitempty"` // each of those joins is created while a source change is in flight
 	Bufsiz  int          `json:"bufsiz,omitempty"` // EventBufsiz of the run (0 = 100)
 	SrcCancelAtStep int  `json:"src_cancel_at_step,omitempty"` // > 0: the join is attached at once and the SOURCE base's context is cancelled that many steps later (around its readiness): the join must stay open
 	OwnCtx  bool         `json:"own_ctx,omitempty"` // the join is built with a context of its own that ends right after construction (a set-up helper with defer cancel()); the bases live on
@@ -535,6 +536,16 @@ func (e *joinEnv) oneJoin(acts []JAct, cycle int) {
 		// a join lives until its result is closed, not until some set-up context ends
 		e.jctx, endOwn = context.WithCancel(e.ctx)
 	}
+	if cycle > 0 && e.sc.HotCycles {
+		// the join is built while a source change is on its way: whatever the
+		// constructor looks at itself is older than what its monitor sees next
+		detsim.Count("probe:join-created-with-source-change-in-flight")
+		hot := world.Spec{NS: "n1", Name: "s1", Sel: map[string]string{"app": []string{"a", "b"}[cycle%2]}}
+		if e.sc.Kind == "ingress-service" || e.sc.Kind == "ingress-pods" {
+			hot.Sel, hot.Refs = nil, []string{[]string{"svc1", "svc2"}[cycle%2]}
+		}
+		e.src.Apply(hot)
+	}
 	rv, err := e.mk()
 	endOwn()
 	if err != nil {
@@ -940,6 +951,7 @@ func genJoin(g GenCtx, kind string, overrun bool) *Join {
 	sc.CloseDst = rng.Intn(3) == 0
 	if rng.Intn(3) == 0 {
 		sc.Cycles = 1 + rng.Intn(20)
+		sc.HotCycles = rng.Intn(4) != 0
 		if rng.Intn(2) == 0 {
 			sc.Cycles = 1 + rng.Intn(3)
 		}
